@@ -184,7 +184,7 @@ def equations():
            ('S12', '$T | { v: $T } | null | [$T, $T]'), ('DD1', 'DN1<$T>'), ('DD2', 'DN2<$T>'), ('DD3', 'DN3<$T>'), ('DD4', 'DN4<$T>'),
            ('IO2', 'NO2<$T>'), ('OI1', 'ON1<$T>'), ('OI2', 'ON2<$T>'), ('OA1', 'OA2<$T>'), ('OA3', 'OA4<$T>'), ('FP1', '{ k: boolean } & FS1<$T>'), ('FP2', '{ myKey: boolean } & FS2<$T> & Inner<$T>'),
            ('FV1', '{ "t": "A", k: boolean } & Inner<$T> | { "t": "B" }'), ('FV2', '{ "t": "A", "c": { k: boolean } & Inner<$T> } | { "t": "B" }'),
-           ('AT1', '[Array<$T>, $T]'), ('AT2', '$T | null'), ('AE1', '$T | null'), ('TF1', '{ "t": "TF1", id: boolean } & Inner<$T>')]
+           ('AT1', '[Array<$T>, $T]'), ('AT2', '$T | null'), ('IA3', 'IA4<$T>'), ('IT3', 'IT4<$T>'), ('IX3', 'IX4<$T>'), ('AE1', '$T | null'), ('TF1', '{ "t": "TF1", id: boolean } & Inner<$T>')]
     for lhs, rhs in SEM:
         if lhs not in G['corpus']:
             continue
